@@ -463,19 +463,20 @@ def write_replay(ctx, sig, clause, case, detail):
     return path
 
 
-def represent(a, key=None, dtypes=True):
+def represent(a, key=None, dtypes=True, ints=True):
     """The same values in another in-memory representation, chosen as a pure
     function of the values (or of `key`): C order, Fortran order, a
-    non-contiguous strided view, and - when every value survives the cast and
-    `dtypes` is set - float32.  Input representation is part of the domain
-    "all inputs"; the reference models always see the plain values."""
+    non-contiguous strided view and - when every value survives the cast and
+    `dtypes` is set - float32, and for integral values (`ints`) int64, int32
+    and an unsigned type.  Input representation is part of the domain "all
+    inputs"; the reference models always see the plain float64 values."""
     import zlib
     a = np.ascontiguousarray(a)
     if a.dtype.kind != "f" or a.size == 0:
         return a
     if key is None:
         key = zlib.crc32(a.tobytes()) ^ (a.ndim * 7919 + a.shape[-1])
-    k = key % 5
+    k = key % 8
     if k == 1 and a.ndim >= 2:
         return np.asfortranarray(a)
     if k == 2:
@@ -491,6 +492,14 @@ def represent(a, key=None, dtypes=True):
         b = a.astype(np.float32)
         if np.array_equal(b.astype(np.float64), a, equal_nan=True):
             return b
+    if k >= 5 and dtypes and ints and np.isfinite(a).all() \
+            and (a == np.round(a)).all() and np.abs(a).max() < 2 ** 31:
+        if k == 5:
+            return a.astype(np.int64)
+        if k == 6:
+            return a.astype(np.int32)
+        if a.min() >= 0:
+            return a.astype(np.uint8 if a.max() < 256 else np.uint32)
     return a
 
 
